@@ -245,6 +245,7 @@ recfunc csum((a (Array Int Real)) (n Int)) Real := (ite (<= n 0) 0.0 (+ (@csum a
 
 func aggregate
   props C15
+  requires ctx != nil && len(ctx.labels) == len(ctx.rows)
   atreturn every-row-in-scope-is-looked-at: $done1
   option assumed_frame
   atreturn count: name == "COUNT" ==> result == ite(star, boxof(float64(cntRows), float64), boxof(float64(cntNonNull), float64))
@@ -332,7 +333,7 @@ func fieldAndSymbol
 func evalNav
   props C15
   option assumed_frame
-  requires ctx != nil
+  requires ctx != nil && len(ctx.labels) == len(ctx.rows)
   observe pos := positionalField
   observe fe := fromEndField
   observe agg := aggregate
@@ -343,6 +344,69 @@ func evalNav
   atreturn match-number-is-the-contexts: name == "MATCH_NUMBER" ==> result1 == nil && result0 == boxof(ctx.matchNumber, int)
   atreturn a-navigation-call-returns-what-its-reader-found: (name == "PREV" || name == "NEXT" ==> result1 == nil && result0 == $pos) && (name == "FIRST" || name == "LAST" ==> result1 == nil && result0 == $fe) && (name == "SUM" || name == "AVG" || name == "COUNT" || name == "MIN" || name == "MAX" ==> result1 == nil && result0 == $agg)
   atreturn an-unknown-name-is-an-error: name != "CLASSIFIER" && name != "MATCH_NUMBER" && name != "PREV" && name != "NEXT" && name != "FIRST" && name != "LAST" && name != "SUM" && name != "AVG" && name != "COUNT" && name != "MIN" && name != "MAX" ==> result1 != nil && result0 == nil
+
+// the rows a navigation or aggregate call ranges over: while a candidate is tested, the rows matched so far followed by
+// the candidate; in MEASURES the running range (up to the cursor) unless FINAL is asked for, then the whole match
+func rowsLabels
+  props C15
+  requires ctx != nil && len(ctx.labels) == len(ctx.rows)
+  ensures while-a-candidate-is-tested-the-range-is-the-matched-rows-followed-by-the-candidate: ctx.candidate != nil ==> len(result0) == len(ctx.rows) + 1 && len(result1) == len(ctx.rows) + 1 && forall(j, 0, len(ctx.rows), result0[j] == ctx.rows[j] && result1[j] == ctx.labels[j]) && result0[len(ctx.rows)] == ctx.candidate && result1[len(ctx.rows)] == ctx.candLabel
+  ensures the-running-range-ends-at-the-cursor: ctx.candidate == nil && !final && ctx.cur >= 0 && ctx.cur < len(ctx.rows) ==> len(result0) == ctx.cur + 1 && len(result1) == ctx.cur + 1 && forall(j, 0, ctx.cur + 1, result0[j] == ctx.rows[j] && result1[j] == ctx.labels[j])
+  ensures the-final-range-is-the-whole-match: ctx.candidate == nil && (final || ctx.cur < 0 || ctx.cur >= len(ctx.rows)) ==> seqeq(result0, ctx.rows) && seqeq(result1, ctx.labels)
+
+// FIRST(x, n) / LAST(x, n): the n-th row from the head / from the tail of the range (n below 1 counts as 1, n beyond the
+// range stops at its far end); an empty range or no argument gives NULL
+func fromEndField
+  props C15
+  option assumed_frame
+  requires ctx != nil && len(ctx.labels) == len(ctx.rows)
+  observe range := rowsLabels
+  observe nth := optInt
+  observe col := fieldName
+  before rowsLabels the-range-is-the-running-or-final-one-asked-for: $arg0 == ctx && $arg1 == final
+  before optInt the-count-is-the-second-argument-one-by-default: $arg0 == args && $arg1 == 1 && $arg2 == 1
+  before fieldName the-column-is-named-by-the-first-argument: $arg0 == args[0]
+  atreturn no-argument-null: len(args) == 0 ==> result == nil
+  atreturn first-counts-from-the-head-clamped-to-the-range: len(args) > 0 && len(rows) > 0 && fromHead ==> n == ite($nth < 1, 1, $nth) && f == $col && seqeq(rows, $range) && result == rows[ite(n - 1 >= len(rows), len(rows) - 1, n - 1)][f]
+  atreturn last-counts-from-the-tail-clamped-to-the-range: len(args) > 0 && len(rows) > 0 && !fromHead ==> n == ite($nth < 1, 1, $nth) && f == $col && seqeq(rows, $range) && result == rows[ite(len(rows) - n < 0, 0, len(rows) - n)][f]
+  atreturn an-empty-range-null: len(args) > 0 && len(rows) == 0 ==> result == nil
+
+// a placeholder of a prepared DEFINE / MEASURES expression: a navigation or aggregate call is answered by evalNav with the
+// call's own name, arguments and FINAL flag on this context; a qualified column by the symbol resolver
+func evalDesc
+  props C15
+  option assumed_frame
+  requires ctx != nil && len(ctx.labels) == len(ctx.rows)
+  observe nav := evalNav
+  observe sym := resolveSymbolField
+  before evalNav a-call-is-answered-under-its-own-name-with-its-own-arguments-and-range: $arg0 == d.name && $arg1 == d.args && $arg2 == ctx && $arg3 == d.final
+  before resolveSymbolField a-qualified-column-is-resolved-for-its-own-symbol-and-column: $arg0 == ctx && $arg1 == d.name && $arg2 == d.field
+  atreturn the-readers-answer-is-the-placeholders-value: (d.kind == phNav ==> result == $nav) && (d.kind == phSym ==> result == $sym) && (d.kind != phNav && d.kind != phSym ==> result == nil)
+
+// a prepared expression is evaluated on a map built for this call: every placeholder bound to its own value on this
+// context, every bare column of the current row that no placeholder shadows; an empty expression is NULL; the compiled
+// expression's answer is the answer
+func evalPrepared
+  props C15
+  option assumed_frame
+  modifies allmaps
+  requires ctx != nil && len(ctx.labels) == len(ctx.rows)
+  observe v := EvaluateValueWithNull
+  observe isNull := EvaluateValueWithNull#1
+  observe err := EvaluateValueWithNull#2
+  count asked := EvaluateValueWithNull
+  before evalDesc each-placeholder-is-evaluated-on-this-context: $arg1 == ctx && $arg0 == d
+  before EvaluateValueWithNull the-compiled-expression-sees-the-map-built-for-this-call: $arg1 == base
+  atreturn an-empty-expression-is-null: old(p == nil || p.compiled == nil) ==> result0 == nil && result1 && result2 == nil && $asked == 0
+  atreturn the-compiled-expressions-answer-is-the-answer: old(p != nil && p.compiled != nil) ==> $asked == 1 && result0 == $v && result1 == $isNull && result2 == $err
+  loop 1 invariant ctx != nil && len(ctx.labels) == len(ctx.rows) && $asked == 0
+  loop 2 invariant ctx != nil && len(ctx.labels) == len(ctx.rows) && $asked == 0
+  loop 3 invariant ctx != nil && len(ctx.labels) == len(ctx.rows) && $asked == 0
+
+// starting the sweeper touches only the engine's own start-up state
+extern (*Engine).Start
+  props C15 C19
+  modifies e.ctx, e.cancel, e.started, e.wg
 
 pred candCarries(ctx, symbol) := ctx.candidate != nil && labelMatches(ctx.candLabel, symbol, ctx.subsets)
 
